@@ -99,6 +99,8 @@ int sut_fill(const char *rrule, sut_inst_t proto, int *count_out);
 /* daemon harness (sut_echsd.c): run a scripted session against the spool directory, returns the trace */
 int sut_daemon_session(const char *spooldir, const char *script, size_t len, sut_buf_t *out);
 double sut_daemon_tstamp(sut_inst_t);
+/* the 32-bit key the daemon's task table files a UID under (input generation only) */
+unsigned sut_uid_key(const char *uid, size_t len);
 
 uint32_t sut_hash(const char *s, size_t n);
 void sut_reset(void);
